@@ -317,22 +317,14 @@ Lemma err_variants_order :
                    [67; 73; 82; 67]; [78; 85; 76; 76] ].
 Proof. reflexivity. Qed.
 
-Lemma display_exact_b :
-  forallb (fun e => Bool.eqb (opt_is (english_lookup (display e)) e) (negb (Nat.eqb e E_NIMPL))) (seq 0 n_err) = true.
+(* every error: Display (what stringify and the xlsx writer print) is read back by
+   get_error_by_english_name — 12 of 12 since /repo 4a681a0 (Error::NIMPL displays as #N/IMPL!) *)
+Lemma display_all_b :
+  forallb (fun e => opt_is (english_lookup (display e)) e) (seq 0 n_err) = true.
 Proof. vm_compute. reflexivity. Qed.
 
-Lemma display_exact e : (e < n_err)%nat -> (english_lookup (display e) = Some e <-> e <> E_NIMPL).
-Proof.
-  intro He. pose proof (seq_forallb _ _ display_exact_b e He) as H. cbv beta in H.
-  apply eqb_prop in H. rewrite <- opt_is_true, H, negb_true_iff. apply Nat.eqb_neq.
-Qed.
-
-Lemma display_partial e : (e < n_err)%nat -> e <> E_NIMPL -> english_lookup (display e) = Some e.
-Proof. intros He Hn. apply display_exact; assumption. Qed.
-
-Lemma display_refuted :
-  display E_NIMPL = [35; 78; 47; 73; 77; 80; 76] /\ english_lookup (display E_NIMPL) = None.
-Proof. vm_compute. split; reflexivity. Qed.
+Lemma display_all e : (e < n_err)%nat -> english_lookup (display e) = Some e.
+Proof. intro He. apply opt_is_true. exact (seq_forallb _ _ display_all_b e He). Qed.
 
 (* the English language names (what the file format expects) all read back *)
 Lemma english_names_b : forallb (fun e => opt_is (english_lookup (error_name 0 e)) e) (seq 0 n_err) = true.
